@@ -267,7 +267,7 @@ func drainChunkSet(ss storage.ChunkSeriesSet) ([]cser, error) {
 // dict: the strings the generators use, defined once in the preamble of every case file (a
 // byte list literal costs Coq far more to parse than an identifier).
 var dict = []string{"__name__", "job", "inst", "m0", "m1", "a", "b", "c", "0", "1", "22", "zone", "x", "zz", "aaa", "k", "", "zzz", "2",
-	"service.name", "k8s-pod", "région", "my label", "9lives", "😀", "http.requests", "mé tric-1", "0up", "🔥", "é", "k8s.cluster"}
+	"service.name", "k8s-pod", "région", "my label", "9lives", "😀", "http.requests", "mé tric-1", "0up", "🔥", "é", "k8s.cluster", "dc.région"}
 
 // label names / metric names that are valid only under the UTF-8 naming scheme (not "legacy")
 var u8names = []string{"service.name", "k8s-pod", "région", "my label", "9lives", "😀"}
@@ -1487,7 +1487,10 @@ func runCase(f gallina.Flags, meta *gallina.Meta, cf *gallina.CaseFile, rg *rig,
 	case 2:
 		ext = labels.FromStrings("aaa", "1", "k", "", "zzz", "2")
 	case 3:
-		ext = labels.FromStrings("k8s.cluster", "x", "région", "1") // UTF-8 names; "région" may clash with a series label
+		// UTF-8-only names that no stored series uses: an external label name carried by only SOME
+		// of the stored series would make two different series identical after MergeLabels
+		// ({job=a} + région=1 and {job=a, région=1}), which is the configuration's fault
+		ext = labels.FromStrings("dc.région", "1", "k8s.cluster", "x")
 	}
 
 	// the serving side's storage: the DB itself (its chunk querier trims the chunks to the
@@ -1585,7 +1588,7 @@ func runCase(f gallina.Flags, meta *gallina.Meta, cf *gallina.CaseFile, rg *rig,
 	// stored series: then the two sides legitimately talk about different series)
 	qchunked := r.Bool()
 	querier := obs{Kind: "skip"}
-	if ext.Get("job") == "" && ext.Get("région") == "" {
+	if ext.Get("job") == "" {
 		cl := rg.sampled
 		if qchunked {
 			cl = rg.chunked
